@@ -11,6 +11,9 @@ type verdict struct {
 	reason    string   // reject reason (model's name of the failing clause)
 	undefined bool     // git's behaviour is undefined or resource dependent: case is skipped
 	feat      []string // features of the (accepted or rejected) delta that matter for finding keys
+
+	srcHdrEnd, tgtHdrEnd int
+	srcSize, tgtSize     uint64
 }
 
 // hdrSize transcribes get_delta_hdr_size. status: "" ok, "die" (st_left_shift
@@ -48,8 +51,7 @@ func lebLen(v uint64) int {
 const modelMaxTarget = 1 << 28
 
 // gitPatchDelta is the oracle model.
-func gitPatchDelta(src, delta []byte) verdict {
-	var v verdict
+func gitPatchDelta(src, delta []byte) (v verdict) {
 	if len(src) == 0 {
 		v.feat = append(v.feat, "empty-base")
 	}
@@ -67,11 +69,13 @@ func gitPatchDelta(src, delta []byte) verdict {
 		return v
 	}
 	if nb > lebLen(size) {
-		v.feat = append(v.feat, "src-size-padded")
 		if nb >= 10 {
-			v.feat = append(v.feat, "leb-10-bytes")
+			v.feat = append(v.feat, "src-hdr-10-bytes")
+		} else {
+			v.feat = append(v.feat, "src-hdr-padded")
 		}
 	}
+	v.srcHdrEnd = pos
 	if size != uint64(len(src)) {
 		v.reason = "src-size-mismatch"
 		return v
@@ -91,16 +95,16 @@ func gitPatchDelta(src, delta []byte) verdict {
 		v.reason = "target-size-leb-overflow"
 		return v
 	}
-	if nb > lebLen(tsize) {
-		v.feat = append(v.feat, "target-size-padded")
-		if nb >= 10 {
-			v.feat = append(v.feat, "leb-10-bytes")
-		}
-	}
-	if delta[pos-1]&0x80 != 0 {
+	switch {
+	case nb >= 10:
+		v.feat = append(v.feat, "tgt-hdr-10-bytes")
+	case delta[pos-1]&0x80 != 0:
 		// target size header ran into the end of the delta with the continuation bit set
-		v.feat = append(v.feat, "target-size-unterminated")
+		v.feat = append(v.feat, "tgt-hdr-unterminated")
+	case nb > lebLen(tsize):
+		v.feat = append(v.feat, "tgt-hdr-padded")
 	}
+	v.tgtHdrEnd, v.srcSize, v.tgtSize = pos, size, tsize
 	dry := tsize > modelMaxTarget
 	remaining := tsize
 	var out []byte
@@ -108,6 +112,13 @@ func gitPatchDelta(src, delta []byte) verdict {
 		out = make([]byte, 0, int(min(tsize, 1<<16)))
 	}
 	top := len(delta)
+	var prevEnd uint64 // end of the previous copy in the source
+	rewound, fwdAfterRewind := false, false
+	defer func() {
+		if fwdAfterRewind {
+			v.feat = append(v.feat, "copy-forward-after-backward")
+		}
+	}()
 	for pos < top {
 		cmd := delta[pos]
 		pos++
@@ -151,6 +162,12 @@ func gitPatchDelta(src, delta []byte) verdict {
 			if !dry {
 				out = append(out, src[cpOff:cpOff+cpSize]...)
 			}
+			if cpOff < prevEnd {
+				rewound = true
+			} else if rewound {
+				fwdAfterRewind = true
+			}
+			prevEnd = cpOff + cpSize
 			remaining -= cpSize
 		} else if cmd != 0 {
 			n := uint64(cmd)
